@@ -372,7 +372,7 @@ func manySegments(c *CaseCtx, class string) {
 func init() {
 	register(&Check{
 		ID: "C09", Level: "fault_enumeration",
-		NCases: func(t string) int { return tier(t, 64, 700) },
+		NCases: func(t string) int { return tier(t, 64, 400) },
 		Run: func(c *CaseCtx) {
 			if slot(c, 16) == 7 {
 				manySegments(c, "many-segments")
@@ -410,7 +410,7 @@ func init() {
 	})
 	register(&Check{
 		ID: "C08", Level: "exploration",
-		NCases: func(t string) int { return tier(t, 400, 5000) },
+		NCases: func(t string) int { return tier(t, 400, 2500) },
 		Run: func(c *CaseCtx) {
 			if slot(c, 16) == 11 {
 				kind := []string{"kv", "set", "zset", "list"}[c.Rng.Intn(4)]
